@@ -224,13 +224,27 @@ fn main() {
     // the ones whose relative order the tie-breaking decides
     let power_templates: Vec<usize> = vec![0, 1, 2, 3, 6, 7, 8];
     let all_templates: Vec<usize> = (0..14).collect();
-    let passes: Vec<(usize, usize, usize, Vec<usize>)> = match args.tier {
-        Tier::Quick => vec![(2, 3, 1, all_templates.clone()), (1, 3, 2, all_templates.clone()), (3, 2, 1, power_templates.clone())],
-        Tier::Thorough => vec![(3, 3, 1, all_templates.clone()), (2, 4, 2, all_templates.clone()), (4, 2, 1, power_templates.clone())],
+    let all17: Vec<usize> = (0..17).collect();
+    let ab = vec!['A', 'B'];
+    // (history depth, max state sets, deviation bound, templates, base rooms); room C = room A followed by an
+    // abandoned, merged power-levels fork (see history.rs)
+    let passes: Vec<(usize, usize, usize, Vec<usize>, Vec<char>)> = match args.tier {
+        Tier::Quick => vec![
+            (2, 3, 1, all_templates.clone(), ab.clone()),
+            (1, 3, 2, all_templates.clone(), ab.clone()),
+            (3, 2, 1, power_templates.clone(), ab.clone()),
+            (2, 2, 1, all17.clone(), vec!['C']),
+        ],
+        Tier::Thorough => vec![
+            (3, 3, 1, all_templates.clone(), ab.clone()),
+            (2, 4, 2, all_templates.clone(), ab.clone()),
+            (4, 2, 1, power_templates.clone(), ab.clone()),
+            (2, 3, 2, all17.clone(), vec!['C']),
+        ],
     };
     report.set_rule(&format!(
-        "passes (history depth, max state sets, deviation bound, templates) = {passes:?}. inputs: every room history reachable by appending <= depth events \
-         (14 templates x prev subsets x timestamp equal/later) to base rooms A and B (room version 11), and every subset of 2..=max nodes containing \
+        "passes (history depth, max state sets, deviation bound, templates, base rooms) = {passes:?}. inputs: every room history reachable by appending <= depth events \
+         (14 templates x prev subsets x timestamp equal/later) to the pass's base rooms (A with power levels, B without, C = A plus an abandoned merged power-levels fork; room version 11), and every subset of 2..=max nodes containing \
          the newest node. For each input: repeat call; every permutation of the state-set list with the auth-chain list permuted jointly, left in \
          place and reversed; 1-3 identical copies of one set must come back unchanged; deviation-bounded DFS over the iteration order of every hash \
          container resolve iterates (hook verif_order): all-default run, then every combination of <= bound deviations over the choice points \
@@ -242,10 +256,10 @@ fn main() {
     report.require_outcomes("input", 1);
     report.require_outcomes("choice-points", 2);
 
-    for (depth, max_k, deviations, templates) in passes.iter().cloned() {
-        let mut shards: Vec<(bool, Action)> = vec![];
-        for with_pl in [true, false] {
-            let h = History::base(11, with_pl);
+    for (depth, max_k, deviations, templates, bases) in passes.iter().cloned() {
+        let mut shards: Vec<(char, Action)> = vec![];
+        for &with_pl in &bases {
+            let h = History::base_kind(11, with_pl);
             for a in h.actions(&templates, &[1, 2]) {
                 shards.push((with_pl, a));
             }
@@ -254,10 +268,10 @@ fn main() {
         // two-action prefixes; phase 2: one shard per prefix, for load balance
         let split = depth >= 3;
         let ex1 = Explorer { report: &report, templates: templates.clone(), depth: if split { 1 } else { depth }, max_k, deviations };
-        let prefixes = std::sync::Mutex::new(Vec::<(bool, Action, Action)>::new());
+        let prefixes = std::sync::Mutex::new(Vec::<(char, Action, Action)>::new());
         par_shards(&report, shards.len(), |i, t| {
             let (with_pl, a) = shards[i];
-            let h = History::base(11, with_pl);
+            let h = History::base_kind(11, with_pl);
             if let Some(next) = h.apply(a) {
                 ex1.visit(&next, t);
                 if split {
@@ -277,7 +291,7 @@ fn main() {
             let ex = Explorer { report: &report, templates: templates.clone(), depth, max_k, deviations };
             par_shards(&report, prefixes.len(), |i, t| {
                 let (with_pl, a, b) = prefixes[i];
-                let h = History::base(11, with_pl);
+                let h = History::base_kind(11, with_pl);
                 if let Some(h2) = h.apply(a).and_then(|h1| h1.apply(b)) {
                     ex.visit(&h2, t);
                 }
